@@ -378,9 +378,12 @@ impl MqttShared {
                     idx,
                     pkt.packet_id()
                 );
+                // keep the entry, it is reported as disconnected on shutdown
+                queues.inflight.push_front((idx, tx, tp));
                 Err(ProtocolError::packet_id_mismatch())
             } else if !pkt.is_match(tp) {
                 log::trace!("MQTT protocol error, unexpected packet");
+                queues.inflight.push_front((idx, tx, tp));
                 Err(ProtocolError::unexpected_packet(pkt.packet_type(), tp.expected_str()))
             } else if matches!(pkt, Ack::Receive(_)) {
                 // get publish ack channel
